@@ -1,0 +1,32 @@
+//go:build verif
+
+package pdf
+
+import "fmt"
+
+// VerifParseEncryptDict calls Reader.parseEncryptDict on an in-memory /Encrypt
+// dictionary (direct objects only) with the given first ID string, and
+// describes the handler parameters it arrived at.  Used by /verif/harness/c09
+// to compare the parsing of well-formed and damaged dictionaries with the
+// model.  No logic of its own.
+func VerifParseEncryptDict(enc Dict, id []byte, twoIDs bool, password string) (string, Perm, error) {
+	r := &Reader{unencrypted: make(map[Reference]bool)}
+	if twoIDs {
+		r.meta.ID = [][]byte{id, id}
+	} else {
+		r.meta.ID = [][]byte{id}
+	}
+	info, perm, err := r.parseEncryptDict(enc, password)
+	if err != nil {
+		return "", 0, err
+	}
+	cf := func(c *cryptFilter) string {
+		if c == nil {
+			return "none"
+		}
+		return fmt.Sprintf("%s-%d", c.Cipher, c.Length)
+	}
+	sec := info.sec
+	return fmt.Sprintf("R=%d kb=%d P=%d plain=%v stm=%s str=%s key=%x", sec.R, sec.keyBytes, sec.P,
+		sec.unencryptedMetadata, cf(info.stmF), cf(info.strF), sec.key), perm, nil
+}
